@@ -150,6 +150,44 @@ theorem unlink_preserves {c : Core} (h : WorldInv c) {ob : Nat} (ho : ob < c.n)
     (hd : (c.objs ob).destructed = false) (he : (c.objs ob).contains = []) : WorldInv (finishDestruct c ob) :=
   finishDestruct_inv h ho hd he
 
+/-- **no_dangling.**  No registry holds a pointer to a released structure: every object reachable through a name-table
+    chain, obj_list, a living-name chain, an inventory or a `super` link is live, hence not released by
+    remove_destructed_objects; so the walks over these structures (find_obj_n, the unlink loops, the fan-out cursor
+    while it stays inside an inventory, find_living, objects(), livings()) never dereference freed memory
+    (`anyFreed` is false for each of them). -/
+theorem no_dangling {c : Core} (h : WorldInv c) :
+    (∀ b, anyFreed c (c.ot b) = false) ∧ anyFreed c c.ol = false ∧ (∀ b, anyFreed c (c.lv b) = false) ∧
+    (∀ y, anyFreed c (c.objs y).contains = false) ∧
+    (∀ x y, (c.objs x).super = some y → (c.objs y).freed = false ∧ (c.objs y).destructed = false) := by
+  have live_nf : ∀ i, (c.objs i).destructed = false → (c.objs i).freed = false := by
+    intro i hd
+    cases hf : (c.objs i).freed with
+    | false => rfl
+    | true => have := h.lists.freedDead i hf; simp [deadF, hd] at this
+  have hall : ∀ (l : List Nat), (∀ i ∈ l, (c.objs i).destructed = false) → anyFreed c l = false := by
+    intro l hl
+    simp only [anyFreed, List.any_eq_false]
+    intro i hi
+    simp [live_nf i (hl i hi)]
+  refine ⟨?_, ?_, ?_, ?_, ?_⟩
+  · intro b; exact hall _ (fun i hi => ((h.names.mem b i).mp hi).2.1)
+  · exact hall _ (fun i hi => ((h.lists.olMem i).mp hi).2)
+  · intro b; exact hall _ (fun i hi => ((h.living.mem b i).mp hi).2.1)
+  · intro y
+    apply hall
+    intro i hi
+    have hs := (h.links.inv i y).mp hi
+    cases hd : (c.objs i).destructed with
+    | false => rfl
+    | true => have := (h.links.deadL i hd).1; rw [this] at hs; simp at hs
+  · intro x y hs
+    have hm : x ∈ contF c y := (h.links.inv x y).mpr hs
+    have hyd : (c.objs y).destructed = false := by
+      cases hd : (c.objs y).destructed with
+      | false => rfl
+      | true => have := (h.links.deadL y hd).2; rw [this] at hm; simp at hm
+    exact ⟨live_nf y hyd, hyd⟩
+
 /-! ## non-vacuity: the hypotheses are met by non-trivial states -/
 
 theorem init_eq : Core.init =
